@@ -430,15 +430,16 @@ class Ref(object):
         F.active = fm
         F.actives = list(fm.outline)
 
-    def check_start(self, F):
-        return self.check_enter(F, list(F.first.outline), [])
+    def check_start(self, F, claimed=None):
+        return self.check_enter(F, list(F.first.outline), [], claimed)
 
-    def check_enter(self, F, enters, exits):
+    def check_enter(self, F, enters, exits, claimed=None):
         if not enters:
             return False
-        claimed = []   # an original aux can have only one main frame at a time
+        if claimed is None:
+            claimed = []   # an original aux can have only one main frame at a time, through every nesting level
         for fm in enters:
-            if not self.frame_check_enter(fm, exits):
+            if not self.frame_check_enter(fm, exits, claimed):
                 return False
             for X in fm.auxes:
                 if X in claimed:
@@ -446,7 +447,7 @@ class Ref(object):
                 claimed.append(X)
         return True
 
-    def frame_check_enter(self, fm, exits):
+    def frame_check_enter(self, fm, exits, claimed=None):
         F = fm.framer
         for ra in fm.lists["benter"]:
             self._count_call()
@@ -464,7 +465,7 @@ class Ref(object):
         for X in fm.auxes:
             if X.main is not None and X.main is not fm and X.main not in exits:
                 return False
-            if not self.check_start(X):
+            if not self.check_start(X, claimed):
                 return False
         return True
 
